@@ -1,3 +1,760 @@
 //go:build verif
 
 package cache
+
+// C13 correspondence driver, pipeline level (overlay-injected).  A real
+// cache.Cache built by cache.New from generated recursion_firewall TTL settings
+// (valid, invalid -> defaults, zero -> defaults) with rfc9520 on or off,
+// driven through Cache.ServeDNS by client queries (Msg-born and wire-born,
+// with and without EDNS / CD / ECS audiences) in front of a scripted
+// downstream handler that plays the resolver: shared failure rcodes, every
+// request-local cause (work budget, deadline, cancellation, optional
+// enrichment, marked responses for attempt limit / probe limit / max
+// recursion), useful answers, truncated replies, and the resolver's own
+// RecordZoneFailure / ClearZoneFailure calls.  Time is virtual: either the
+// failure cache's clock is scripted, or — clock left at time.Now as in
+// production — the stored retry-after instants are shifted backwards
+// (vC13Shift) with steps kept a second away from every boundary.
+// Observables: client rcode, EDE code, downstream call count, FailureLen.
+
+import (
+	"context"
+	"fmt"
+	"math/rand"
+	"net"
+	"net/netip"
+	"runtime"
+	"strings"
+	"sync"
+	"sync/atomic"
+	"testing"
+	"time"
+
+	"github.com/miekg/dns"
+	"github.com/semihalev/sdns/config"
+	"github.com/semihalev/sdns/internal/dnsutil"
+	"github.com/semihalev/sdns/internal/mock"
+	"github.com/semihalev/sdns/middleware"
+	ednsmw "github.com/semihalev/sdns/middleware/edns"
+)
+
+// vC13Shift emulates a clock advance of d for code that reads time.Now
+// directly: every stored retry-after instant moves d into the past.  Entries
+// are replaced by shifted copies under their own hash (the cache is far
+// below capacity in these runs, so Add evicts nothing).
+func vC13Shift(fc *FailureCache, d time.Duration) {
+	type slot struct {
+		h uint64
+		e *failureEntry
+	}
+	var all []slot
+	fc.entries.ForEach(func(h uint64, v any) bool {
+		if e, ok := v.(*failureEntry); ok && e != nil {
+			all = append(all, slot{h, e})
+		}
+		return true
+	})
+	for _, s := range all {
+		cp := *s.e
+		cp.retryAfter = cp.retryAfter.Add(-d)
+		fc.entries.CompareAndSwap(s.h, s.e, &cp)
+	}
+}
+
+// a context whose cancellation state the downstream script controls
+type vC13Ctx struct {
+	context.Context
+	mu       sync.Mutex
+	err      error
+	deadline time.Time
+	hasDL    bool
+	done     chan struct{}
+}
+
+func newVC13Ctx(parent context.Context) *vC13Ctx {
+	return &vC13Ctx{Context: parent, done: make(chan struct{})}
+}
+func (c *vC13Ctx) Deadline() (time.Time, bool) {
+	c.mu.Lock()
+	defer c.mu.Unlock()
+	return c.deadline, c.hasDL
+}
+func (c *vC13Ctx) Done() <-chan struct{} { return c.done }
+func (c *vC13Ctx) Err() error {
+	c.mu.Lock()
+	defer c.mu.Unlock()
+	return c.err
+}
+func (c *vC13Ctx) fail(err error) {
+	c.mu.Lock()
+	if c.err == nil {
+		c.err = err
+		close(c.done)
+	}
+	c.mu.Unlock()
+}
+func (c *vC13Ctx) setDeadline(t time.Time) {
+	c.mu.Lock()
+	c.deadline, c.hasDL = t, true
+	c.mu.Unlock()
+}
+
+type vC13Down struct {
+	kind       int // 0 failure, 1 useful, 2 truncated
+	rcode      int
+	ctxErr     int // 0 none, 1 cancel, 2 deadline exceeded (Err), 3 deadline reached but Err not yet published
+	bestEffort bool
+	workLimit  bool
+	marked     int // 0 none, 1..6 request-local error kinds
+	zoneAct    bool
+	zone       vC13Name
+	zoneEmpty  bool
+	zoneClass  uint16
+}
+
+func (d vC13Down) local() bool {
+	return d.ctxErr != 0 || d.bestEffort || d.workLimit || d.marked != 0
+}
+
+func (d vC13Down) coq() string {
+	zc := "None"
+	if d.zoneAct {
+		z := "(Some " + d.zone.coq() + ")"
+		if d.zoneEmpty {
+			z = "None"
+		}
+		zc = fmt.Sprintf("(Some (%d%%N, %s))", d.zoneClass, z)
+	}
+	switch d.kind {
+	case 0:
+		return fmt.Sprintf("(PDFail (mk_req_local %v %v %v %v) %s)", d.ctxErr != 0, d.bestEffort, d.workLimit, d.marked != 0, zc)
+	case 1:
+		return fmt.Sprintf("(PDUseful %s)", zc)
+	}
+	return "PDTrunc"
+}
+
+func (d vC13Down) String() string {
+	var s []string
+	switch d.kind {
+	case 0:
+		s = append(s, "fail rcode="+dns.RcodeToString[d.rcode])
+	case 1:
+		s = append(s, "useful rcode="+dns.RcodeToString[d.rcode])
+	case 2:
+		s = append(s, "truncated")
+	}
+	if d.ctxErr != 0 {
+		s = append(s, []string{"", "ctx-canceled", "ctx-deadline", "ctx-deadline-unpublished"}[d.ctxErr])
+	}
+	if d.bestEffort {
+		s = append(s, "best-effort")
+	}
+	if d.workLimit {
+		s = append(s, "work-budget")
+	}
+	if d.marked != 0 {
+		s = append(s, []string{"", "mark:attempt-limit", "mark:probe-limit", "mark:max-recursion", "mark:canceled", "mark:deadline", "mark:work-limit"}[d.marked])
+	}
+	if d.zoneAct {
+		if d.kind == 1 {
+			s = append(s, "ClearZoneFailure "+d.zone.pres())
+		} else {
+			s = append(s, "RecordZoneFailure "+d.zone.pres())
+		}
+	}
+	return strings.Join(s, " ")
+}
+
+// one client query through the real cache; returns rcode, EDE, downstream calls
+func vC13Serve(c *Cache, ednsH middleware.Handler, k vC13QKey, edns, do, wire bool, d vC13Down) (rcode int, ede int, calls int, scope netip.Prefix) {
+	req := k.req()
+	if edns || k.scope.IsValid() {
+		req.SetEdns0(1232, do)
+		if k.scope.IsValid() {
+			a := k.scope.Addr()
+			fam := uint16(2)
+			if a.Is4() {
+				fam = 1
+			}
+			req.IsEdns0().Option = append(req.IsEdns0().Option, &dns.EDNS0_SUBNET{
+				Code: dns.EDNS0SUBNET, Family: fam, SourceNetmask: uint8(k.scope.Bits()), Address: net.IP(a.AsSlice()),
+			})
+		}
+	}
+	base := context.Background()
+	var ledger *middleware.RecursionWorkLedger
+	if d.workLimit {
+		ledger = middleware.NewRecursionWorkLedger(middleware.RecursionWorkPolicy{Mode: middleware.RecursionWorkEnforce, MaxOutboundQueries: 1, MaxInternalQueries: 32})
+		base = middleware.WithRecursionWork(base, ledger)
+	}
+	if d.bestEffort {
+		base = middleware.WithBestEffortRecursionWork(base)
+	}
+	ctx := newVC13Ctx(base)
+	var n atomic.Int32
+	stub := middleware.HandlerFunc(func(hctx context.Context, ch *middleware.Chain) {
+		n.Add(1)
+		rq := ch.Request.Msg()
+		q := rq.Question[0]
+		resp := new(dns.Msg)
+		resp.SetReply(rq)
+		switch d.kind {
+		case 0:
+			resp.Rcode = d.rcode
+			if rq.IsEdns0() != nil {
+				resp.SetEdns0(1232, false)
+				dnsutil.SetEDE(resp, dns.ExtendedErrorCodeNoReachableAuthority, "no reachable authority")
+			}
+			if d.zoneAct {
+				z := d.zone.pres()
+				if d.zoneEmpty {
+					z = ""
+				}
+				c.store.RecordZoneFailure(dns.Question{Name: q.Name, Qtype: q.Qtype, Qclass: d.zoneClass}, z)
+			}
+			if d.workLimit {
+				_ = ledger.Debit(middleware.RecursionWorkOutboundQuery)
+				_ = ledger.Debit(middleware.RecursionWorkOutboundQuery)
+			}
+			if d.marked != 0 {
+				mctx, guard := middleware.EnsureResolutionAttemptGuard(hctx)
+				var err error
+				switch d.marked {
+				case 1:
+					for range 3 {
+						_ = guard.Begin(q, "192.0.2.53:53", "udp")
+					}
+					err = guard.Begin(q, "192.0.2.53:53", "udp")
+				case 2:
+					err = middleware.ErrFailureProbeLimit
+				case 3:
+					err = middleware.ErrMaxRecursion
+				case 4:
+					err = context.Canceled
+				case 5:
+					err = context.DeadlineExceeded
+				case 6:
+					err = fmt.Errorf("resolve: %w", middleware.ErrRecursionWorkLimit)
+				}
+				middleware.MarkRequestLocalFailureResponse(mctx, resp, err)
+			}
+			switch d.ctxErr {
+			case 1:
+				ctx.fail(context.Canceled)
+			case 2:
+				ctx.setDeadline(time.Unix(1, 0))
+				ctx.fail(context.DeadlineExceeded)
+			case 3:
+				ctx.setDeadline(time.Unix(1, 0))
+			}
+		case 1:
+			resp.Rcode = d.rcode
+			if d.rcode == dns.RcodeSuccess {
+				resp.Answer = []dns.RR{&dns.A{Hdr: dns.RR_Header{Name: q.Name, Rrtype: dns.TypeA, Class: q.Qclass, Ttl: 300}, A: []byte{192, 0, 2, 80}}}
+			} else {
+				resp.Ns = []dns.RR{&dns.SOA{Hdr: dns.RR_Header{Name: ".", Rrtype: dns.TypeSOA, Class: q.Qclass, Ttl: 300}, Ns: "a.", Mbox: "b.", Serial: 1, Refresh: 1, Retry: 1, Expire: 1, Minttl: 300}}
+			}
+			if d.zoneAct {
+				z := d.zone.pres()
+				if d.zoneEmpty {
+					z = ""
+				}
+				c.store.ClearZoneFailure(dns.Question{Name: q.Name, Qtype: q.Qtype, Qclass: d.zoneClass}, z)
+			}
+		case 2:
+			resp.Rcode = d.rcode
+			resp.Truncated = true
+		}
+		_ = ch.Writer.WriteMsg(resp)
+		ch.Cancel()
+	})
+	writer := mock.NewWriter("udp", "192.0.2.1:53000")
+	chain := middleware.NewChain([]middleware.Handler{c, stub})
+	if wire && !k.scope.IsValid() {
+		// the byte path leaves OPT and EDE to the edns layer, as the live chain wires it
+		chain = middleware.NewChain([]middleware.Handler{ednsH, c, stub})
+		raw, err := req.Pack()
+		if err != nil {
+			panic(err)
+		}
+		wr := new(middleware.Request)
+		if wr.ParseWire(raw, time.Now(), nil) {
+			chain.ResetWire(writer, wr)
+			chain.AllowDirectPack()
+		} else {
+			chain.Reset(writer, req)
+		}
+	} else {
+		chain.Reset(writer, req)
+	}
+	clientAddr, _ := netip.AddrFromSlice(writer.RemoteIP())
+	if clientAddr.Is4In6() {
+		clientAddr = clientAddr.Unmap()
+	}
+	scope = c.requestScope(req, clientAddr)
+	chain.Next(ctx)
+	rcode, ede = 999, -1
+	if m := writer.Msg(); m != nil && writer.Written() {
+		rcode = m.Rcode
+		if e := dnsutil.GetEDE(m); e != nil {
+			ede = int(e.InfoCode)
+		}
+	}
+	return rcode, ede, int(n.Load()), scope
+}
+
+func vC13PipeConfig(r *rand.Rand) (*config.Config, int, time.Duration, time.Duration, bool) {
+	cfg := &config.Config{CacheSize: 1024, Expire: 300}
+	cfg.ECS.Enabled = true
+	cfg.ECS.ClientNetworks = []string{"0.0.0.0/0", "::/0"}
+	cfg.ECS.ForwardV4Max = 24
+	cfg.ECS.ForwardV6Max = 56
+	size := []int{0, 0, 4096, 512, -3}[r.Intn(5)]
+	var init, max time.Duration
+	switch r.Intn(8) {
+	case 0: // all defaults
+	case 1: // invalid: below the one second floor
+		init, max = time.Second-1, time.Minute
+	case 2: // invalid: above the five minute ceiling
+		init, max = 5*time.Second, 5*time.Minute+1
+	case 3: // invalid: max below min
+		init, max = 30*time.Second, 29*time.Second
+	case 4: // only one of the two set
+		if r.Intn(2) == 0 {
+			init = time.Duration(1+r.Intn(5)) * time.Second
+		} else {
+			max = time.Duration(5+r.Intn(296)) * time.Second
+		}
+	default:
+		init, max = vC13Durations(r)
+	}
+	cfg.RecursionFirewall.FailureCacheSize = size
+	cfg.RecursionFirewall.FailureCacheMinTTL.Duration = init
+	cfg.RecursionFirewall.FailureCacheMaxTTL.Duration = max
+	off := r.Intn(7) == 0
+	if off {
+		f := false
+		cfg.RFC9520 = &f
+	} else if r.Intn(2) == 0 {
+		tr := true
+		cfg.RFC9520 = &tr
+	}
+	return cfg, size, init, max, off
+}
+
+func vC13PipeHistory(r *rand.Rand) map[string]any {
+	cfg, rawSize, rawInit, rawMax, off := vC13PipeConfig(r)
+	c := New(cfg)
+	defer c.Stop()
+	ednsH := ednsmw.New(cfg)
+	g := newVC13Gen(r)
+	g.scopes = []netip.Prefix{
+		{}, {}, {}, {},
+		netip.MustParsePrefix("198.51.100.0/24"),
+		netip.MustParsePrefix("198.51.100.77/24"),
+		netip.MustParsePrefix("198.51.100.0/23"),
+		netip.MustParsePrefix("203.0.113.0/24"),
+		netip.MustParsePrefix("2001:db8:1::/48"),
+	}
+	g.types = []uint16{dns.TypeA, dns.TypeAAAA, dns.TypeSOA}
+	shiftMode := r.Intn(4) == 0
+	clock := &vC13Clock{now: vC13Base}
+	if !shiftMode {
+		c.failure.now = clock.Now
+	}
+	init, max := c.failure.initialTTL, c.failure.maxTTL
+	started := time.Now()
+	var virt int64 // virtual nanoseconds elapsed
+	jitterRisk := false
+
+	tab := newVC13Tab()
+	var steps, desc []string
+	var recent []vC13QKey
+	cachedHits, downstreamCalls, localInjected := 0, 0, 0
+	// boundaries in virtual time: expiry and idle>=max instants of stored entries
+	boundaries := func() []int64 {
+		var b []int64
+		nowReal := time.Now()
+		c.failure.entries.ForEach(func(_ uint64, v any) bool {
+			if e, ok := v.(*failureEntry); ok && e != nil {
+				var at int64
+				if shiftMode {
+					at = virt + int64(e.retryAfter.Sub(nowReal))
+				} else {
+					at = int64(e.retryAfter.Sub(vC13Base))
+				}
+				b = append(b, at, at+int64(max))
+			}
+			return true
+		})
+		return b
+	}
+	nsteps := 10 + r.Intn(16)
+	// directed episode: fail, let the backoff end, recover, let the answer expire,
+	// fail again, and ask once more between one and two initial intervals later —
+	// the second failure must have started a new episode
+	episode := r.Intn(5) == 0
+	var epKey vC13QKey
+	if episode {
+		epKey = g.qkey()
+		epKey.qclass = dns.ClassINET
+		nsteps += 6
+	}
+	for i := 0; i < nsteps; i++ {
+		script := -1
+		if episode && i < 9 {
+			script = i
+		}
+		if script == 3 || (script < 0 && r.Intn(12) == 0) {
+			// the answers cached so far have lived out their TTL
+			var keys []uint64
+			c.store.ForEach(func(positive bool, key uint64, _ *CacheEntry) bool {
+				if positive {
+					keys = append(keys, key)
+				}
+				return true
+			})
+			for _, key := range keys {
+				c.positive.Remove(key)
+			}
+			steps = append(steps, "PExpireAnswers")
+			desc = append(desc, "cached answers expire")
+			continue
+		}
+		if script == 1 || script == 5 || script == 7 || (script < 0 && r.Intn(4) == 0) {
+			var dt int64
+			bs := boundaries()
+			switch r.Intn(6) {
+			case 0, 1, 2:
+				if len(bs) > 0 {
+					dt = bs[r.Intn(len(bs))] - virt + int64(r.Intn(3)-1)
+				}
+			case 3:
+				dt = r.Int63n(int64(max) + 1)
+			case 4:
+				dt = int64(init) + int64(r.Intn(3)-1)
+			case 5:
+				dt = int64(time.Duration(1+r.Intn(72)) * time.Hour)
+			}
+			switch script {
+			case 1:
+				dt = int64(init) + 1 + r.Int63n(int64(time.Second))
+			case 5:
+				dt = int64(init) + 1 + r.Int63n(int64(time.Second))
+				if 2*init <= max && r.Intn(2) == 0 {
+					dt = 2*int64(init) - 1 - r.Int63n(int64(time.Second)/2)
+				}
+			case 7:
+				dt = r.Int63n(int64(max) + 1)
+			}
+			if dt < 0 {
+				dt = 0
+			}
+			if shiftMode {
+				// wall-clock jitter must not decide anything: stay one second away from every boundary
+				for tries := 0; tries < 8; tries++ {
+					moved := false
+					for _, b := range bs {
+						if diff := virt + dt - b; diff > -int64(time.Second) && diff < int64(time.Second) {
+							dt = b + int64(time.Second) + int64(r.Intn(1000))*int64(time.Millisecond) - virt
+							moved = true
+						}
+					}
+					if !moved {
+						break
+					}
+				}
+				if dt < 0 {
+					dt = 0
+				}
+				for _, b := range bs {
+					if diff := virt + dt - b; diff > -int64(time.Second) && diff < int64(time.Second) {
+						jitterRisk = true // could not get clear of every boundary
+					}
+				}
+				vC13Shift(c.failure, time.Duration(dt))
+			} else {
+				clock.now = clock.now.Add(time.Duration(dt))
+			}
+			virt += dt
+			steps = append(steps, fmt.Sprintf("PAdvance %d", dt))
+			desc = append(desc, "advance "+time.Duration(dt).String())
+			continue
+		}
+		k := g.qkey()
+		if k.qclass == dns.ClassCHAOS && r.Intn(2) == 0 {
+			k.qclass = dns.ClassINET
+		}
+		if len(recent) > 0 && r.Intn(100) < 45 {
+			// ask again for something that was asked before, exactly or with one
+			// dimension changed: the partitions a cached failure must not cross
+			k = recent[r.Intn(len(recent))]
+			k.name = g.caseMix(k.name)
+			switch r.Intn(8) {
+			case 0:
+				k.qtype = g.types[r.Intn(len(g.types))]
+			case 1:
+				k.cd = !k.cd
+			case 2:
+				k.scope = g.scopes[r.Intn(len(g.scopes))]
+			case 3:
+				k.qclass = g.classes[r.Intn(len(g.classes))]
+			case 4:
+				k.name = append(vC13Name{vC13RandLabel(r, false)}, k.name...) // a child
+			}
+		}
+		w := r.Intn(20)
+		switch script {
+		case 0, 4, 6, 8:
+			k, w = epKey, 0
+			k.name = g.caseMix(k.name)
+		case 2:
+			k, w = epKey, 10
+		}
+		recent = append(recent, k)
+		edns := r.Intn(3) != 0
+		var d vC13Down
+		switch {
+		case w < 10:
+			d.kind = 0
+			d.rcode = []int{dns.RcodeServerFailure, dns.RcodeServerFailure, dns.RcodeRefused, dns.RcodeNotImplemented}[r.Intn(4)]
+			if script < 0 && r.Intn(5) < 2 { // inject request-local causes
+				if r.Intn(3) == 0 {
+					d.ctxErr = 1 + r.Intn(3)
+				}
+				if r.Intn(4) == 0 {
+					d.bestEffort = true
+				}
+				if r.Intn(4) == 0 {
+					d.workLimit = true
+				}
+				if r.Intn(3) == 0 || !d.local() {
+					d.marked = 1 + r.Intn(6)
+				}
+			}
+			if !d.local() && r.Intn(3) == 0 { // the resolver published a zone failure on the way
+				d.zoneAct = true
+				d.zoneClass = k.qclass
+				cut := r.Intn(len(k.name) + 1)
+				d.zone = g.caseMix(k.name[cut:])
+				if r.Intn(6) == 0 {
+					d.zone, d.zoneClass = g.zone()
+				}
+				d.zoneEmpty = r.Intn(15) == 0
+			}
+		case w < 16:
+			d.kind = 1
+			d.rcode = dns.RcodeNameError
+			if k.qtype == dns.TypeA && r.Intn(2) == 0 {
+				d.rcode = dns.RcodeSuccess
+			}
+			if r.Intn(3) == 0 {
+				d.zoneAct = true
+				d.zoneClass = k.qclass
+				cut := r.Intn(len(k.name) + 1)
+				d.zone = g.caseMix(k.name[cut:])
+				d.zoneEmpty = r.Intn(15) == 0
+			}
+		default:
+			d.kind = 2
+			d.rcode = []int{dns.RcodeServerFailure, dns.RcodeSuccess}[r.Intn(2)]
+		}
+		// A wire-born request continues on a detached context (Chain.Materialize):
+		// by design no value, deadline or ledger of the outer context crosses that
+		// boundary, so causes that live in the context can only be injected into a
+		// Msg-born request here; marked responses travel through ResponseMeta and
+		// work for both.
+		wire := r.Intn(3) == 0 && d.ctxErr == 0 && !d.bestEffort && !d.workLimit
+		rcode, ede, calls, scope := vC13Serve(c, ednsH, k, edns, r.Intn(2) == 0, wire, d)
+		mk := k
+		mk.scope = scope // the audience the cache derived from the ECS option
+		tab.addQuestion(mk)
+		if d.zoneAct {
+			tab.addZone(d.zone, d.zoneClass)
+		}
+		if calls == 0 && rcode == dns.RcodeServerFailure {
+			cachedHits++
+		}
+		downstreamCalls += calls
+		if d.kind == 0 && d.local() && calls > 0 {
+			localInjected++
+		}
+		edeC := "None"
+		if ede >= 0 {
+			edeC = fmt.Sprintf("(Some %d%%N)", ede)
+		}
+		steps = append(steps, fmt.Sprintf("PQuery %s %v %s %d %s %d %d", mk.coq(), edns || k.scope.IsValid(), d.coq(), rcode, edeC, calls, c.store.FailureLen()))
+		desc = append(desc, fmt.Sprintf("query %s edns=%v wire=%v downstream{%s} -> rcode=%d ede=%d downstream_calls=%d failure_len=%d", mk.coq(), edns, wire, d.String(), rcode, ede, calls, c.store.FailureLen()))
+	}
+	final := "[]"
+	exact := !shiftMode
+	if exact {
+		final, _ = vC13Dump(c.failure)
+	}
+	k := "pipe"
+	switch {
+	case off:
+		k = "pipe-rfc9520-off"
+	case shiftMode:
+		k = "pipe-shifted-instants"
+	}
+	out := map[string]any{
+		"k": k,
+		"coq": fmt.Sprintf("CasePipe (%d) (%d) (%d) %v %v (%d) (%d) %s [%s] %s", rawSize, int64(rawInit), int64(rawMax), off, exact, int64(init), int64(max), tab.coq(), strings.Join(steps, ";"), final),
+		"nontrivial": cachedHits > 0 && downstreamCalls > 0,
+		"desc": map[string]any{"failure_cache_size": rawSize, "min_ttl": rawInit.String(), "max_ttl": rawMax.String(), "effective": init.String() + ".." + max.String(),
+			"rfc9520_off": off, "clock": map[bool]string{true: "stored instants shifted, time.Now", false: "scripted"}[shiftMode],
+			"steps": desc, "cached_failure_answers": cachedHits, "downstream_calls": downstreamCalls, "request_local_injected": localInjected},
+	}
+	if shiftMode && (jitterRisk || time.Since(started) > 400*time.Millisecond) {
+		out["inconclusive"] = true // the host stalled; wall-clock jitter could have crossed a boundary
+	}
+	return out
+}
+
+// an expired zone failure and a cohort of concurrent queries for distinct
+// names below it: one probe reaches the downstream, the others are answered
+// from the failure the probe re-established
+func vC13ProbeCase(r *rand.Rand) map[string]any {
+	c := New(&config.Config{CacheSize: 1024})
+	defer c.Stop()
+	clock := &vC13Clock{now: vC13Base}
+	c.failure.now = clock.Now
+	g := newVC13Gen(r)
+	zone := g.names[2]
+	qclass := uint16(dns.ClassINET)
+	tab := newVC13Tab()
+	c.store.RecordZoneFailure(dns.Question{Name: "seed." + zone.pres(), Qtype: dns.TypeA, Qclass: qclass}, zone.pres())
+	clock.now = clock.now.Add(c.failure.initialTTL + 1)
+
+	n := 3 + r.Intn(6)
+	var names []vC13Name
+	var keys, ncoq []string
+	for i := 0; i < n; i++ {
+		nm := append(vC13Name{[]byte(fmt.Sprintf("p%d", i))}, zone...)
+		if i%3 == 2 {
+			nm = append(vC13Name{vC13RandLabel(r, false)}, nm...)
+		}
+		names = append(names, nm)
+		k := vC13QKey{name: nm, qtype: dns.TypeA, qclass: qclass}
+		tab.addQuestion(k)
+		// some members have an expired failure of their own as well: the zone's
+		// generation must still decide their probe key
+		exact := i%2 == 1
+		if exact {
+			clock.now = vC13Base
+			c.store.RecordFailure(k.req(), netip.Prefix{}, FailureProvenance("response"), nil)
+			clock.now = vC13Base.Add(c.failure.initialTTL + 1)
+		}
+		ncoq = append(ncoq, fmt.Sprintf("(%s,%v)", nm.coq(), exact))
+		key, ok := c.store.FailureRetryKey(k.req(), netip.Prefix{})
+		if ok {
+			keys = append(keys, fmt.Sprintf("Some %d%%N", key))
+		} else {
+			keys = append(keys, "None")
+		}
+	}
+	// keys are read again once every member is set up
+	keys = keys[:0]
+	for _, nm := range names {
+		key, ok := c.store.FailureRetryKey(vC13QKey{name: nm, qtype: dns.TypeA, qclass: qclass}.req(), netip.Prefix{})
+		if ok {
+			keys = append(keys, fmt.Sprintf("Some %d%%N", key))
+		} else {
+			keys = append(keys, "None")
+		}
+	}
+
+	var calls atomic.Int32
+	entered := make(chan struct{}, n)
+	release := make(chan struct{})
+	stub := middleware.HandlerFunc(func(_ context.Context, ch *middleware.Chain) {
+		calls.Add(1)
+		entered <- struct{}{}
+		<-release
+		rq := ch.Request.Msg()
+		resp := new(dns.Msg)
+		resp.SetRcode(rq, dns.RcodeServerFailure)
+		// the resolver finds the zone still dead
+		c.store.RecordZoneFailure(rq.Question[0], zone.pres())
+		_ = ch.Writer.WriteMsg(resp)
+		ch.Cancel()
+	})
+	type result struct {
+		rcode, ede int
+	}
+	results := make(chan result, n)
+	run := func(nm vC13Name) {
+		req := vC13QKey{name: nm, qtype: dns.TypeA, qclass: qclass}.req()
+		req.SetEdns0(1232, false)
+		writer := mock.NewWriter("udp", "192.0.2.1:53000")
+		chain := middleware.NewChain([]middleware.Handler{c, stub})
+		chain.Reset(writer, req)
+		chain.Next(context.Background())
+		res := result{999, -1}
+		if m := writer.Msg(); m != nil {
+			res.rcode = m.Rcode
+			if e := dnsutil.GetEDE(m); e != nil {
+				res.ede = int(e.InfoCode)
+			}
+		}
+		results <- res
+	}
+	go run(names[0])
+	<-entered // the probe leader is inside the downstream
+	for _, nm := range names[1:] {
+		go run(nm)
+	}
+	// followers either queue behind the leader's generation (then they block
+	// until it is released) or — if single-probe election is broken — reach the
+	// downstream themselves; give them a moment to do either
+	// Followers either queue behind the leader's generation (then they block
+	// until it is released) or — if single-probe election is broken — reach the
+	// downstream themselves while the probe is still in flight.
+	before := 1
+	deadline := time.After(30 * time.Millisecond)
+wait:
+	for before < n {
+		select {
+		case <-entered:
+			before++
+		case <-deadline:
+			break wait
+		}
+	}
+	runtime.Gosched()
+	close(release)
+	cached := 0
+	for i := 0; i < n; i++ {
+		res := <-results
+		if res.rcode == dns.RcodeServerFailure && res.ede == int(dns.ExtendedErrorCodeCachedError) {
+			cached++
+		}
+	}
+	// a follower the scheduler held back until after the probe completed starts
+	// a new generation of its own; that is a later probe, not a concurrent one
+	late := int(calls.Load()) - before
+	total := before
+	cached += late
+	return map[string]any{
+		"k": "probe-cohort",
+		"coq": fmt.Sprintf("CaseProbe %s %s %d [%s] [%s] %d %d", tab.coq(), zone.coq(), qclass, strings.Join(ncoq, ";"), strings.Join(keys, ";"), total, cached),
+		"nontrivial": true,
+		"desc":       map[string]any{"zone": zone.pres(), "cohort": n, "downstream_calls": total, "answered_from_failure_cache": cached, "retry_keys": keys},
+	}
+}
+
+func TestVerifC13Pipe(t *testing.T) {
+	tr := vC13Open(t)
+	defer tr.f.Close()
+	seed := int64(vC13EnvInt("VERIF_SEED", 1))
+	n := vC13EnvInt("VERIF_N", 200)
+	r := rand.New(rand.NewSource(seed + 1000003))
+	for i := 0; i < n; i++ {
+		tr.emit(vC13PipeHistory(r))
+	}
+	for i := 0; i < n/20+4; i++ {
+		tr.emit(vC13ProbeCase(r))
+	}
+}
